@@ -110,10 +110,16 @@ func formatArrayTypeName(v string) string {
 func ExtractValue(v reflect.Value, extractor ValueExtractor) {
 	// a nil pointer still tells which type it can point to: describe a fresh value of that type, as is done
 	// for the element type of an empty slice or map
-	for v.Kind() == reflect.Ptr {
+	for v.Kind() == reflect.Ptr || v.Kind() == reflect.Interface {
 		if v.IsNil() {
+			if v.Kind() == reflect.Interface {
+				// an empty interface value says nothing about what it may hold
+				break
+			}
 			v = reflect.New(v.Type().Elem())
 		}
+		// the value held by an interface (an element of []interface{}, a map[string]interface{} value) is
+		// described like any other
 		v = v.Elem()
 	}
 
